@@ -291,8 +291,9 @@ def run_robust(ctx, fzf, sid, sc):
                 except OSError:
                     pass
                 life.wait_gone(60)
-        if life.gone() and typed and (not own or life.status() != 130):
-            # typed bytes may have been an accept / abort (the driver does not interpret them)
+        if life.gone() and (not own or life.status() != 130):
+            # typed bytes / posted actions may have been an accept or an abort (e.g. `cancel` with the input hidden); the
+            # driver does not interpret them
             life.mark({"ev": "req", "how": "key"}, off=0)
         return life.finish()
     finally:
